@@ -200,7 +200,13 @@ def _ghost(d, rng):
     forgets the schema would bind it to that table."""
     if rng.random() < 0.5:
         real = rng.choice([t for k_, i_ in d.order if k_ == 't' for t in [d.tables[i_]]])
-        g = am.Table(f'nosuchschema{rng.randrange(10**6)}', real.name)
+        # the schema that does not exist: unrelated, or a near miss of the default schema's name
+        gs = f'nosuchschema{rng.randrange(10**6)}' if rng.random() < 0.5 else \
+            rng.choice(['pub', 'p', 'lic', 'ublic', 'publi', 'public2', 'xpublic', 'PUBLIC', 'Public', 'publicpublic', 'c'])
+        if gs == real.schema:
+            gs = gs + '_x'
+        # ... and the name: the table's bare name, or the alias it also answers to
+        g = am.Table(gs, real.alias if real.alias and rng.random() < 0.5 else real.name)
         g.columns = [am.Column(c.name, am.ColType('plain', 'int')) for c in real.columns]
         # make sure the real table has been looked up before (a group over it, declared first)
         if rng.random() < 0.7:
@@ -282,7 +288,26 @@ def inj_unknown_col_index(rng, d):
     return CNF, {}
 
 
+def inj_tableless(rng, d):
+    """a document that declares no table at all and names one in a reference or in a table group"""
+    d.order = [(k_, i_) for k_, i_ in d.order if k_ in ('e', 'p', 's')]
+    d.refs, d.groups = [], []
+    a = _simple_table(rng.choice(['public', 'sg']), f'ghost{rng.randrange(10**6)}', 'a')
+    b = _simple_table(rng.choice(['public', 'sg']), f'ghost{rng.randrange(10**6)}', 'b')
+    d.tables += [a, b]
+    ia, ib = len(d.tables) - 2, len(d.tables) - 1
+    how = rng.choice(['ref-short', 'ref-block', 'group'])
+    if how == 'group':
+        d.groups.append(am.Group(f'gg{rng.randrange(10**6)}', [ia] + ([ib] if rng.random() < 0.5 else [])))
+        _pos(rng, d, ('g', 0))
+    else:
+        d.refs.append(am.Ref(rng.choice(gen.REF_KINDS), ia, [a.columns[0].name], ib, [b.columns[0].name], form=how.split('-')[1]))
+        _pos(rng, d, ('r', 0))
+    return TNF, {'how': how}
+
+
 RULES = {
+    'unknown-table-in-tableless-document': inj_tableless,
     'duplicate-table': inj_dup_table, 'alias-reuse': inj_alias_reuse, 'alias-equals-key': inj_alias_equals_key,
     'duplicate-enum': inj_dup_enum, 'duplicate-group': inj_dup_group, 'table-twice-in-group': inj_group_twice,
     'duplicate-reference': inj_dup_ref, 'table-without-columns': inj_empty_table,
